@@ -296,7 +296,30 @@ class Engine:
         return m
 
 
-ENGINE = None
+class _ConcreteOnly:
+    """used outside an exploration (differential validation runs): only constant conditions are allowed"""
+
+    def branch(self, cond):
+        c = z3.simplify(cond)
+        if z3.is_true(c):
+            return True
+        if z3.is_false(c):
+            return False
+        raise Inconclusive("symbolic branch outside an exploration")
+
+    def concretize(self, e, cap=0):
+        e = z3.simplify(e)
+        if z3.is_bv_value(e):
+            return e.as_signed_long()
+        raise Inconclusive("symbolic value outside an exploration")
+
+    def choose(self, n, name=''):
+        raise Inconclusive("choice outside an exploration")
+
+    free_bools = set()
+
+
+ENGINE = _ConcreteOnly()
 
 
 def set_engine(e):
